@@ -352,6 +352,9 @@ MAGNITUDE_FIXED = [
     {"c": [128.0, -128.0], "A": [[14.0, -20.0], [-7340032.0, 10485760.0]], "b": [0.0, 0.0], "minimize": False},
     {"c": [0, 3, 2, 3], "A": [[0, 0, -5, -8], [-5, -2, 0, 0], [1, 0, 0, 0], [0, 1, 0, 0], [0, 0, 2147483648, 0], [0, 0, 0, 1]],
      "b": [-17, -19, 5, 5, 4294967296, 4], "minimize": True},
+    # objective of magnitude 1e6..1e8: UNBOUNDED before commit 39737f0 (objective row scaled)
+    {"c": [1000000, -1000000], "A": [[-1, 1], [-9, 0], [-1, -9]], "b": [-1, -25, -17], "minimize": True},
+    {"c": [50331648.0, -50331648.0], "A": [[-10.0, 10.0], [-1207959552.0, 0], [-512.0, -4608.0]], "b": [-10.0, -3355443200.0, -8704.0], "minimize": True},
     # objective cell vs c.x of the returned point (commit 0767acf)
     {"c": [5, 87960930222079, 5], "A": [[0, 1, 0], [1, 0, 0], [0, -6, -3]], "b": [1, 1, -8], "minimize": True},
 ]
@@ -837,7 +840,10 @@ def run_hard(ctx):
             ctx.nontriv(json.dumps({k: case[k] for k in ("c", "A", "b", "minimize", "max_iter")}, sort_keys=True, default=str))
         ctx.traces_validated += 1
         mag = max([abs(v) for v in case["b"]] + [abs(v) for v in case["c"]] + [abs(a) for r in case["A"] for a in r] + [0])
-        key = ("probe" if case.get("probe") else ("mid" if case.get("mid") else ("big" if mag > 1e4 else "std")), case.get("eps"))
+        # right-hand sides that stay huge after the code's row equilibration (|b_i| / max_j |A_ij| > 1e6): the rhs column carries
+        # round-off far above eps, the pivot trace of the exact model is no reference there - public result only
+        rel = max([abs(bi) / (max([abs(a) for a in r] + [0]) or 1.0) for r, bi in zip(case["A"], case["b"])] + [0])
+        key = ("probe" if case.get("probe") else ("mid" if case.get("mid") else ("hugerhs" if rel > 1e6 else ("big" if mag > 1e4 else "std"))), case.get("eps"))
         groups.setdefault(key, []).append((case, out, orc))
     unexplained = []
     COMB = "(fun k => corr_robust_check eps_default tol7 k && (cert_case_check k || negb (robust_check k)))"
@@ -854,6 +860,9 @@ def run_hard(ctx):
     # (since the code equilibrates its rows - commit 96ecc58 - the pivot trace is comparable again: full correspondence)
     failing = ctx.coq_check("hmag", M.IMPORTS, "lp_case", "corr_robust_check eps_default tol7", [M.coq_case(c, o) for c, o, _ in big_items], shard=40)
     unexplained += [("corr", big_items[i]) for i in failing]
+    hr_items = groups.get(("hugerhs", None), [])
+    failing = ctx.coq_check("hrhs", M.IMPORTS, "lp_case", "corr_public_check eps_default tol7", [M.coq_case(c, o) for c, o, _ in hr_items], shard=40)
+    unexplained += [("corr", hr_items[i]) for i in failing]
     # mid-size: model + proved certificate checker are the only judges of optimality besides the verified dual point
     mid_items = groups.get(("mid", None), [])
     failing = ctx.coq_check("hmid", M.IMPORTS, "lp_case", "(fun k => corr_check eps_default tol7 k && cert_case_check k)",
